@@ -36,8 +36,10 @@ W1(e) == e.kind = "w_eq" => e.got = e.want
 (* ISBN: a number inside the range hyphenates into five non-empty parts that concatenate to it *)
 W2(e) == e.kind = "w_isbn" => (/\ Len(e.got) = 5 /\ \A i \in 1..5 : e.got[i] # <<>>
                               /\ e.got[1] \o e.got[2] \o e.got[3] \o e.got[4] \o e.got[5] = e.w)
-ClauseNames == <<"R1", "R2", "R2n", "R3", "W1", "W2">>
-Clauses(e) == [R1 |-> R1(e), R2 |-> R2(e), R2n |-> R2n(e), R3 |-> R3(e), W1 |-> W1(e), W2 |-> W2(e)]
+(* the consumer's answer contains every property of the entry (it may add fields of its own) *)
+W3(e) == e.kind = "w_sub" => \A i \in 1..Len(e.want) : \E j \in 1..Len(e.got) : e.got[j] = e.want[i]
+ClauseNames == <<"R1", "R2", "R2n", "R3", "W1", "W2", "W3">>
+Clauses(e) == [R1 |-> R1(e), R2 |-> R2(e), R2n |-> R2n(e), R3 |-> R3(e), W1 |-> W1(e), W2 |-> W2(e), W3 |-> W3(e)]
 Failing(e) == LET c == Clauses(e) IN SelectSeq(ClauseNames, LAMBDA n : ~c[n])
 
 Pop(o, d) == LET keep == {i \in 1..Len(o) : o[i] < d} IN SubSeq(o, 1, IF keep = {} THEN 0 ELSE Max(keep))
